@@ -3858,9 +3858,22 @@ FROM (
                 builder.cross_join(info["table_src"], info["sql_alias"])
                 continue
             right_alias = info["sql_alias"]
+
+            def _left_key(k: str) -> str:
+                # FULL JOIN: a key may be NULL on the first side (row introduced by a later
+                # operand), so compare with the coalesced key of ALL preceding operands.
+                if node.op == tokens.FULL_JOIN:
+                    prev = [
+                        f"{p['sql_alias']}.{quote_name(k)}"
+                        for p in clause_info[: idx + 1]
+                        if k in p["ds"].components
+                    ]
+                    if len(prev) > 1:
+                        return f"COALESCE({', '.join(prev)})"
+                return f"{comp_to_alias.get(k, first_sql_alias)}.{quote_name(k)}"
+
             on_parts = [
-                f"{comp_to_alias.get(k, first_sql_alias)}.{quote_name(k)} = "
-                f"{right_alias}.{quote_name(k)}"
+                f"{_left_key(k)} = {right_alias}.{quote_name(k)}"
                 for k in pairwise_keys[idx]
                 if k in info["ds"].components
             ]
